@@ -8,7 +8,8 @@ Line protocol of the limits model (C06).
   error). Answer `ok|fail|alloclimit <dispatched> <allocs>`.
 * `(frames K <trace>)` — trace over `c` (call) `r` (return) `o` (other), then the end.
   Answer `ok|overflow|underflow <dispatched> <framesIndex> <high>`.
-* `(guard <op> L a [b])` — length guards on lengths: `stradd bytesadd string bytes bytesn lit pad`.
+* `(guard <op> L a [b])` — length guards on lengths: `stradd bytesadd string bytes bytesn lit pad write
+  typename`, and `(guard mapkey L isStr a)` (`isStr` 1: string index stored as it is, 0: converted index).
   Answer `ok <len>` | `err stringlimit|byteslimit|gopanic`.
 * `(bufseq L op…)` — a `format` call as its sequence of guarded buffer writes.
 -/
@@ -68,6 +69,8 @@ def handleGuard : List Sexp → String
       | "bytes", [a] => showGuard (builtinBytes L (zeros a.toNat))
       | "bytesn", [n] => showGuard (builtinBytesN L n)
       | "lit", [a] => showGuard (stringLit L (zeros a.toNat))
+      | "typename", [a] => showGuard (typeNameResult L (zeros a.toNat))
+      | "mapkey", [isStr, a] => showGuard (mapKeyOfIndex L (isStr != 0) (zeros a.toNat))
       | "pad", [a, n] => showGuard (bufStep L (zeros a.toNat) (.pad n 32))
       | "write", [a, b] => showGuard (bufStep L (zeros a.toNat) (.write (zeros b.toNat)))
       | _, _ => "bad-op"
